@@ -180,3 +180,72 @@ impl MerkleTree {
             r is Ok && r->Ok_0 is Right ==> hypercore_index < old(self).length && r->Ok_0->Right_0 == blk_off(hypercore_index as int)
     { unimplemented!() }
 }
+
+/*@ item src/common/peer.rs struct RequestBlock @*/
+/*@ item src/common/peer.rs struct RequestSeek @*/
+/*@ item src/common/peer.rs struct RequestUpgrade @*/
+/*@ item src/common/peer.rs struct Proof @*/
+/*@ item src/common/peer.rs struct ValuelessProof @*/
+/*@ item src/common/peer.rs struct DataBlock @*/
+/*@ item src/common/peer.rs struct DataHash @*/
+/*@ item src/common/peer.rs struct DataSeek @*/
+/*@ item src/common/peer.rs struct DataUpgrade @*/
+
+/// what verification hands to the core: a changeset made from the current tree, signed if it upgrades
+pub open spec fn verified_changeset(t: &MerkleTree, cs: &MerkleTreeChangeset) -> bool {
+    &&& cs.original_tree_length == t.length && cs.original_tree_fork == t.fork && cs.ancestors == t.length
+    &&& cs.upgraded ==> cs.hash is Some && cs.hash->Some_0@.len() == 32 && cs.signature is Some
+    &&& cs.nodes@.len() <= 0x40_0000
+    &&& forall|i: int| 0 <= i < cs.nodes@.len() ==> (#[trigger] cs.nodes@[i]).hash@.len() == 32
+    &&& cs.length <= 0xff_ffff_ffff && cs.byte_length <= 0xff_ffff_ffff_ffff
+    &&& !cs.upgraded ==> cs.length == t.length && cs.byte_length == t.byte_length && cs.fork == t.fork
+}
+impl MerkleTree {
+    // ASSUMED here; to be proved in unit merkle
+    #[verifier::external_body]
+    pub fn verify_proof(&mut self, proof: &Proof, public_key: &VerifyingKey, infos: Option<&[StoreInfo]>)
+        -> (r: Result<Either<Box<[StoreInfoInstruction]>, MerkleTreeChangeset>, HypercoreError>)
+        ensures *final(self) == *old(self),
+            r is Ok && r->Ok_0 is Left ==> r->Ok_0->Left_0@.len() > 0 && tree_instr(r->Ok_0->Left_0@),
+            r is Ok && r->Ok_0 is Right ==> verified_changeset(old(self), &r->Ok_0->Right_0)
+                && (proof.upgrade is Some ==> r->Ok_0->Right_0.upgraded)
+    { unimplemented!() }
+    #[verifier::external_body]
+    pub fn byte_offset_in_changeset(&mut self, hypercore_index: u64, changeset: &MerkleTreeChangeset, infos: Option<&[StoreInfo]>)
+        -> (r: Result<Either<Box<[StoreInfoInstruction]>, u64>, HypercoreError>)
+        ensures *final(self) == *old(self),
+            r is Ok && r->Ok_0 is Left ==> r->Ok_0->Left_0@.len() > 0 && tree_instr(r->Ok_0->Left_0@),
+            r is Ok && r->Ok_0 is Right ==> r->Ok_0->Right_0 == blk_off(hypercore_index as int)
+    { unimplemented!() }
+}
+
+impl MerkleTree {
+    // ASSUMED here; to be proved in unit merkle
+    #[verifier::external_body]
+    pub fn create_valueless_proof(&mut self, block: Option<&RequestBlock>, hash: Option<&RequestBlock>, seek: Option<&RequestSeek>,
+        upgrade: Option<&RequestUpgrade>, infos: Option<&[StoreInfo]>)
+        -> (r: Result<Either<Box<[StoreInfoInstruction]>, ValuelessProof>, HypercoreError>)
+        ensures *final(self) == *old(self),
+            r is Ok && r->Ok_0 is Left ==> r->Ok_0->Left_0@.len() > 0 && tree_instr(r->Ok_0->Left_0@),
+            r is Ok && r->Ok_0 is Right ==> r->Ok_0->Right_0.fork == old(self).fork
+                && (r->Ok_0->Right_0.block is Some) == (block is Some)
+                && (block is Some ==> r->Ok_0->Right_0.block->Some_0.index == block->Some_0.index)
+                && (r->Ok_0->Right_0.upgrade is Some) == (upgrade is Some)
+    { unimplemented!() }
+    #[verifier::external_body]
+    pub fn missing_nodes(&mut self, index: u64, infos: Option<&[StoreInfo]>) -> (r: Result<Either<Box<[StoreInfoInstruction]>, u64>, HypercoreError>)
+        ensures *final(self) == *old(self),
+            r is Ok && r->Ok_0 is Left ==> r->Ok_0->Left_0@.len() > 0 && tree_instr(r->Ok_0->Left_0@)
+    { unimplemented!() }
+}
+impl ValuelessProof {
+    // ASSUMED (`mut self` receivers and Option::map with a capturing closure are outside the Verus subset)
+    #[verifier::external_body]
+    pub fn into_proof(self, block_value: Option<Vec<u8>>) -> (r: Proof)
+        requires self.block is Some ==> block_value is Some
+        ensures r.fork == self.fork, r.hash == self.hash, r.seek == self.seek, r.upgrade == self.upgrade,
+            (r.block is Some) == (self.block is Some),
+            self.block is Some ==> r.block->Some_0.index == self.block->Some_0.index && r.block->Some_0.nodes == self.block->Some_0.nodes
+                && r.block->Some_0.value == block_value->Some_0
+    { unimplemented!() }
+}
